@@ -66,6 +66,12 @@ func TestC15Rotation(t *testing.T) {
 		if s.Reopens > 0 {
 			cl = append(cl, "reopen")
 		}
+		if s.Restarts > 0 {
+			cl = append(cl, "restart_new_sink_value")
+		}
+		if s.Touches > 0 {
+			cl = append(cl, "old_rotated_file_touched")
+		}
 		if v != nil {
 			cl = append(cl, "other_property_violation_"+v.Prop)
 		}
